@@ -274,12 +274,12 @@ end
     values (all scalar values, `string_roundtrip`).  The printer inserts no parentheses of its own, so the shape hypothesis is
     exactly what makes the statement true: `a or (b or c)` without its parentheses node would print as `a or b or c`.
     The fuel the model parser gives itself (`fuelFor`) is shown to suffice for every printed expression. -/
-theorem print_parse_roundtrip (e : PExpr) (rv gv : List (List Char × Bool))
-    (hshape : C05.IsOr e) (hsets : SetsOk (mkCtx (printExpr e) rv gv) e) :
-    ∃ e', parseFilterset (printExpr e) rv gv = .ok e' ∧ dropSpans e' = dropSpans e := by
-  have hm : ExprRT.MatcherRT (mkCtx (printExpr e) rv gv) (MatcherOk (mkCtx (printExpr e) rv gv)) :=
+theorem print_parse_roundtrip (e : PExpr) (rv gv : List (List Char × Bool)) (re : List (List Char × Nat × Nat))
+    (hshape : C05.IsOr e) (hsets : SetsOk (mkCtx (printExpr e) rv gv re) e) :
+    ∃ e', parseFilterset (printExpr e) rv gv re = .ok e' ∧ dropSpans e' = dropSpans e := by
+  have hm : ExprRT.MatcherRT (mkCtx (printExpr e) rv gv re) (MatcherOk (mkCtx (printExpr e) rv gv re)) :=
     fun dm m tail errs needs h => matcher_roundtrip _ dm m tail errs needs h
-  obtain ⟨e', h1, h2⟩ := ExprRT.parseTop_printed (MatcherOk (mkCtx (printExpr e) rv gv)) e rv gv hm (wf_or _ e hshape hsets)
+  obtain ⟨e', h1, h2⟩ := ExprRT.parseTop_printed (MatcherOk (mkCtx (printExpr e) rv gv re)) e rv gv re hm (wf_or _ e hshape hsets)
   exact ⟨e', by simp only [parseFilterset, h1], h2⟩
 
 /-- the validity tables (the answers of the `regex` / `globset` crates, which the model takes as input) cover every regex
@@ -294,8 +294,8 @@ def TablesCover (rv gv : List (List Char × Bool)) : PExpr → Prop
   | .inter _ a b => TablesCover rv gv a ∧ TablesCover rv gv b
   | .diff a b => TablesCover rv gv a ∧ TablesCover rv gv b
 
-private theorem sets_ok_of_out (rv gv : List (List Char × Bool)) (i1 i2 : List Char) :
-    ∀ e : PExpr, SetsOut.SetsOut (mkCtx i1 rv gv) e → TablesCover rv gv e → SetsOk (mkCtx i2 rv gv) e := by
+private theorem sets_ok_of_out (rv gv : List (List Char × Bool)) (re : List (List Char × Nat × Nat)) (i1 i2 : List Char) :
+    ∀ e : PExpr, SetsOut.SetsOut (mkCtx i1 rv gv re) e → TablesCover rv gv e → SetsOk (mkCtx i2 rv gv re) e := by
   intro e
   induction e with
   | set s =>
@@ -344,13 +344,13 @@ private theorem sets_ok_of_out (rv gv : List (List Char × Bool)) (i1 i2 : List 
     error-free parse yields non-empty values, implicit matchers only in their predicate's default form, regexes not ending in a
     backslash, and texts the validity oracle accepted).  `TablesCover` only says that the oracle's answers used for the second
     parse include the texts of the first. -/
-theorem parsed_expression_roundtrips (input : List Char) (rv gv : List (List Char × Bool)) (e : PExpr)
-    (h : parseFilterset input rv gv = .ok e) (hc : TablesCover rv gv e) :
-    ∃ e', parseFilterset (printExpr e) rv gv = .ok e' ∧ dropSpans e' = dropSpans e := by
-  have hout := SetsOut.parseFilterset_out input rv gv e h
+theorem parsed_expression_roundtrips (input : List Char) (rv gv : List (List Char × Bool)) (re : List (List Char × Nat × Nat)) (e : PExpr)
+    (h : parseFilterset input rv gv re = .ok e) (hc : TablesCover rv gv e) :
+    ∃ e', parseFilterset (printExpr e) rv gv re = .ok e' ∧ dropSpans e' = dropSpans e := by
+  have hout := SetsOut.parseFilterset_out input rv gv re e h
   have hshape : C05.IsOr e := by
     unfold parseFilterset at h
-    generalize hpt : parseTop (mkCtx input rv gv) input = pt at h
+    generalize hpt : parseTop (mkCtx input rv gv re) input = pt at h
     obtain ⟨eo, stf⟩ := pt
     cases eo with
     | none => simp at h
@@ -360,12 +360,12 @@ theorem parsed_expression_roundtrips (input : List Char) (rv gv : List (List Cha
       | nil =>
         simp only [hs, Except.ok.injEq] at h
         subst h
-        exact C05.parse_shape input rv gv _ stf hpt
-  exact print_parse_roundtrip e rv gv hshape (sets_ok_of_out rv gv input (printExpr e) e hout hc)
+        exact C05.parse_shape input rv gv re _ stf hpt
+  exact print_parse_roundtrip e rv gv re hshape (sets_ok_of_out rv gv re input (printExpr e) e hout hc)
 
 /-- what `Filterset::parse` returns for the printed form of `e`, spans forgotten -/
 def reparse (e : PExpr) : Option PExpr :=
-  match parseFilterset (printExpr e) [] [] with
+  match parseFilterset (printExpr e) [] [] [] with
   | .ok x => some (dropSpans x)
   | .error _ => none
 
@@ -378,7 +378,7 @@ example : reparse (.inter .literalAnd (.not .literalNot (.set (.unary .test (.co
 
 -- non-vacuity of `parsed_expression_roundtrips`: a source text with redundant blanks, several operator spellings and an escaped
 -- value is accepted, and its expression re-reads as itself
-example : (match parseFilterset "  not  test( a\\,b ) & ( kind(=lib)|all() )  -  package(foo)".toList [] [] with
+example : (match parseFilterset "  not  test( a\\,b ) & ( kind(=lib)|all() )  -  package(foo)".toList [] [] [] with
     | .ok x => decide (reparse x = some (dropSpans x)) | .error _ => false) = true := by decide +kernel
 
 /-- without the shape hypothesis the statement is false: a right-nested `or` prints without parentheses and is read back
@@ -401,34 +401,35 @@ theorem escape_table_matches_source :
 /-- **parsing terminates on every string with either an expression or a list of errors**: `parseFilterset` is a total function
     (Lean's termination checker accepted the fuelled definition; `fuelFor` suffices for every input, which the correspondence
     checks by never observing the `outOfFuel` error kind) — and **every reported error span lies within the input**:
-    `offset + length ≤` the input's length in bytes, for every input string and every regex/glob validity oracle. -/
-theorem spans_in_input (input : List Char) (rv gv : List (List Char × Bool)) (errs : List PErr)
-    (h : parseFilterset input rv gv = .error errs) : ∀ e ∈ errs, e.off + e.len ≤ utf8Len input := by
+    `offset + length ≤` the input's length in bytes, for every input string, every regex/glob validity oracle and every table of
+    spans blamed by `regex-syntax` (an `InvalidRegex` span is `start + ` that span, or the whole regex text). -/
+theorem spans_in_input (input : List Char) (rv gv : List (List Char × Bool)) (re : List (List Char × Nat × Nat)) (errs : List PErr)
+    (h : parseFilterset input rv gv re = .error errs) : ∀ e ∈ errs, e.off + e.len ≤ utf8Len input := by
   unfold parseFilterset at h
   simp only at h
   split at h
   · cases h
   · simp only [Except.error.injEq] at h; subst h
-    exact parseTop_spans input rv gv
+    exact parseTop_spans input rv gv re
 
 /-- **an expression or at least one error**: on every string, `Filterset::parse` (model: `parseFilterset`) either returns an
     expression, or returns a NON-EMPTY list of errors — it can never come back empty-handed -/
-theorem result_or_error (input : List Char) (rv gv : List (List Char × Bool)) (errs : List PErr)
-    (h : parseFilterset input rv gv = .error errs) : errs ≠ [] := by
+theorem result_or_error (input : List Char) (rv gv : List (List Char × Bool)) (re : List (List Char × Nat × Nat)) (errs : List PErr)
+    (h : parseFilterset input rv gv re = .error errs) : errs ≠ [] := by
   unfold parseFilterset at h
   simp only at h
   split at h
   · cases h
   · rename_i e es hne
     simp only [Except.error.injEq] at h; subst h
-    cases he : (parseTop (mkCtx input rv gv) input).1 with
+    cases he : (parseTop (mkCtx input rv gv re) input).1 with
     | none => exact parseTop_none_errs _ input he
     | some x =>
       intro hes
       exact hne x he hes
 
 -- non-vacuity: an input that ends right after a backslash (the escape error's span is clamped to what remains: nothing)
-example : (match parseFilterset "test(foo\\".toList [] [] with | .error es => es | .ok _ => []) =
+example : (match parseFilterset "test(foo\\".toList [] [] [] with | .error es => es | .ok _ => []) =
     [⟨.invalidEscape, 8, 0⟩, ⟨.expectedCloseParen, 9, 0⟩] := by decide
 
 end NextestModel.C20
